@@ -937,7 +937,12 @@ func (state *RuntimeState) checkAuth(w http.ResponseWriter, r *http.Request, req
 				// The second factor handlers upgrade whatever session
 				// cookie comes with the request: a cookie of another user
 				// must not ride along with this certificate.
-				if cookie, err := r.Cookie(authCookieName); err == nil {
+				// A request can carry several cookies with this name and
+				// the upgrade takes the last one: look at all of them.
+				for _, cookie := range r.Cookies() {
+					if cookie.Name != authCookieName {
+						continue
+					}
 					info, err := state.getAuthInfoFromAuthJWT(cookie.Value)
 					if err == nil && info.Username != authData.Username {
 						state.writeFailureResponse(w, r,
